@@ -110,3 +110,26 @@ Definition run_canon (p : list Z) : list Z := canonicalize p.
 Definition run_normpath (p : list Z) : list Z := normpath p.
 (* many short paths per case: results separated by -1 *)
 Definition run_canon_many (ps : list (list Z)) : list Z := flat_map (fun p => canonicalize p ++ [-1]) ps.
+
+(* exhaustive sweeps without large case files: the idx-th string of length len over the alphabet
+   {'/', '.', 'a', 'b'} (base-4 digits of idx, most significant first), results packed into one
+   number in base 5 (0 = separator, 1..4 = the four symbols; canonicalize only returns symbols
+   of its input and '/') *)
+Definition sym (d : Z) : Z := if d =? 0 then 47 else if d =? 1 then 46 else if d =? 2 then 97 else 98.
+Fixpoint nth_string (len : nat) (idx : Z) (acc : list Z) : list Z :=
+  match len with
+  | O => acc
+  | S k => nth_string k (idx / 4) (sym (idx mod 4) :: acc)
+  end.
+Definition code (c : Z) : Z :=
+  if c =? 47 then 1 else if c =? 46 then 2 else if c =? 97 then 3 else if c =? 98 then 4 else 0.
+Definition pack5 (acc : Z) (s : list Z) : Z := fold_left (fun a c => a * 5 + code c) s (acc * 5).
+Fixpoint range_fold (n : nat) (len : nat) (idx : Z) (acc : Z) : Z :=
+  match n with
+  | O => acc
+  | S m => range_fold m len (idx + 1) (pack5 acc (canonicalize (nth_string len idx [])))
+  end.
+(* c = (len, start, count): strings start .. start+count-1 of length len *)
+Definition run_canon_range (c : Z * Z * Z) : list Z :=
+  let '(len, start, count) := c in
+  [range_fold (Z.to_nat (Z.min count 4096)) (Z.to_nat (Z.min len 16)) start 1].
